@@ -1,6 +1,6 @@
 /-
   C02 helpers: under draft-07 the keywords of later drafts (`minContains`, `maxContains`, `unevaluatedItems`,
-  `unevaluatedProperties`) are read neither by the Spec nor by the evaluator.
+  `unevaluatedProperties`, `$dynamicRef`) are read neither by the Spec nor by the evaluator.
 -/
 import JSV.Proofs.InvDraft
 import JSV.Proofs.InvPerm5
@@ -8,25 +8,36 @@ namespace JSV
 namespace Inv
 open Go GoVal Refine
 
-/-- clear the four keywords that later drafts added to draft-07 -/
+/-- clear the keywords that later drafts added to draft-07 -/
 def eraseLater (n : Node) : Node :=
-  { n with minContains := none, maxContains := none, unevaluatedItems := none, unevaluatedProperties := none }
+  { n with dynamicRef := "", minContains := none, maxContains := none, unevaluatedItems := none,
+           unevaluatedProperties := none }
 
 /-- … which is what the draft-07 vocabulary of the Spec does -/
 theorem eraseLater_eq_vocab (n : Node) : eraseLater n = Spec.vocab .d7 n := rfl
 
-/-- … and the four field-wise erasures of C18 composed -/
+/-- … and the five field-wise erasures of C18 composed -/
 theorem eraseLater_eq_eraseField (n : Node) :
-    eraseLater n = eraseField "MinContains" (eraseField "MaxContains"
-      (eraseField "UnevaluatedItems" (eraseField "UnevaluatedProperties" n))) := by
+    eraseLater n = eraseField "DynamicRef" (eraseField "MinContains" (eraseField "MaxContains"
+      (eraseField "UnevaluatedItems" (eraseField "UnevaluatedProperties" n)))) := by
+  have h0 : ∀ m : Node, eraseField "DynamicRef" m = { m with dynamicRef := "" } := fun _ => rfl
   have h1 : ∀ m : Node, eraseField "UnevaluatedProperties" m = { m with unevaluatedProperties := none } := fun _ => rfl
   have h2 : ∀ m : Node, eraseField "UnevaluatedItems" m = { m with unevaluatedItems := none } := fun _ => rfl
   have h3 : ∀ m : Node, eraseField "MaxContains" m = { m with maxContains := none } := fun _ => rfl
   have h4 : ∀ m : Node, eraseField "MinContains" m = { m with minContains := none } := fun _ => rfl
-  rw [h1, h2, h3, h4]
+  rw [h1, h2, h3, h4, h0]
   rfl
 
 theorem vocab_eraseLater (d : Draft) (n : Node) (hd : d = .d7) : Spec.vocab d (eraseLater n) = Spec.vocab d n := by
+  subst hd; rfl
+
+/-- clear `$dynamicRef` alone (Schema.Resolve reads none of the five, but `unevaluatedItems` / `unevaluatedProperties` hold
+    subschemas, which it visits) -/
+def eraseDynRef (n : Node) : Node := { n with dynamicRef := "" }
+
+theorem eraseDynRef_eq_eraseField (n : Node) : eraseDynRef n = eraseField "DynamicRef" n := rfl
+
+theorem vocab_eraseDynRef (d : Draft) (n : Node) (hd : d = .d7) : Spec.vocab d (eraseDynRef n) = Spec.vocab d n := by
   subst hd; rfl
 
 /-! ### the evaluator -/
@@ -41,11 +52,28 @@ theorem stepBody_later7 (env : VEnv) (hd : env.draft = .d7) (rec : Go.Rec) (stac
   have hO := fun stk => bObject_of_bDependencies env rec stk eraseLater n (fun _ _ _ => rfl)
     (fun _ _ => rfl) rfl (fun _ _ => rfl)
     (fun kvs anns => by rw [bUnevaluatedProps_vocab, bUnevaluatedProps_vocab _ _ _ n, vocab_eraseLater _ _ hd])
+  have hD : ∀ stk inf inst anns, bDynamicRef env rec stk (eraseLater n) inf inst anns
+      = bDynamicRef env rec stk n inf inst anns := fun stk inf inst anns => by
+    rw [bDynamicRef_d7 env hd, bDynamicRef_d7 env hd]
   unfold stepBody
-  simp only [hA, hO]
+  simp only [hA, hO, hD]
   rfl
 
-/-- a draft-07 evaluation never reads minContains, maxContains, unevaluatedItems, unevaluatedProperties -/
+theorem stepBody_dyn7 (env : VEnv) (hd : env.draft = .d7) (rec : Go.Rec) (stack : List NodeId) (i : GoVal) (s : NodeId)
+    (n : Node) : stepBody env rec stack i s (eraseDynRef n) = stepBody env rec stack i s n := by
+  have hD : ∀ stk inf inst anns, bDynamicRef env rec stk (eraseDynRef n) inf inst anns
+      = bDynamicRef env rec stk n inf inst anns := fun stk inf inst anns => by
+    rw [bDynamicRef_d7 env hd, bDynamicRef_d7 env hd]
+  unfold stepBody
+  simp only [hD]
+  rfl
+
+/-- a draft-07 evaluation never reads `$dynamicRef` -/
+theorem validateFuel_dyn7 (env : VEnv) (hd : env.draft = .d7) : ∀ fuel stack i s,
+    validateFuel { env with st := env.st.map eraseDynRef } fuel stack i s = validateFuel env fuel stack i s :=
+  validateFuel_map_of env eraseDynRef (fun rec stack i s n => stepBody_dyn7 env hd rec stack i s n)
+
+/-- a draft-07 evaluation never reads minContains, maxContains, unevaluatedItems, unevaluatedProperties, `$dynamicRef` -/
 theorem validateFuel_later7 (env : VEnv) (hd : env.draft = .d7) : ∀ fuel stack i s,
     validateFuel { env with st := env.st.map eraseLater } fuel stack i s = validateFuel env fuel stack i s :=
   validateFuel_map_of env eraseLater (fun rec stack i s n => stepBody_later7 env hd rec stack i s n)
@@ -57,6 +85,41 @@ theorem specBody_later7 (env : Spec.Env) (hd : env.draft = .d7) (rec : Spec.Rec)
   unfold specBody kwList
   rw [vocab_eraseLater _ _ hd]
   rfl
+
+/-- the Spec on a store mapped by `f`, when no schema object is read differently through `f` -/
+theorem evalFuel_map_of (env : Spec.Env) (f : Node → Node)
+    (hf : ∀ rec scope s j n, specBody env rec scope s j (f n) = specBody env rec scope s j n) : ∀ fuel scope s j,
+    Spec.evalFuel { env with st := env.st.map f } fuel scope s j = Spec.evalFuel env fuel scope s j := by
+  intro fuel
+  induction fuel with
+  | zero => intro _ _ _; rfl
+  | succ k ih =>
+    intro scope s j
+    have hrec : Spec.evalFuel { env with st := env.st.map f } k = Spec.evalFuel env k := by
+      funext a b c; exact ih a b c
+    show Spec.evalStep _ (Spec.evalFuel _ k) scope s j = Spec.evalStep env (Spec.evalFuel env k) scope s j
+    rw [evalStep_unfold, evalStep_unfold, hrec]
+    show (match Store.get? (env.st.map f) s with
+          | none => none
+          | some n => specBody { env with st := env.st.map f } (Spec.evalFuel env k) scope s j n) = _
+    rw [get?_map]
+    cases Store.get? env.st s with
+    | none => rfl
+    | some n =>
+      show specBody { env with st := env.st.map f } (Spec.evalFuel env k) scope s j (f n) = _
+      rw [specBody_store]
+      exact hf _ scope s j n
+
+theorem specBody_dyn7 (env : Spec.Env) (hd : env.draft = .d7) (rec : Spec.Rec) (scope : List NodeId) (s : NodeId)
+    (j : Json) (n : Node) : specBody env rec scope s j (eraseDynRef n) = specBody env rec scope s j n := by
+  unfold specBody kwList
+  rw [vocab_eraseDynRef _ _ hd]
+  rfl
+
+/-- the draft-07 Spec never reads `$dynamicRef` -/
+theorem evalFuel_dyn7 (env : Spec.Env) (hd : env.draft = .d7) : ∀ fuel scope s j,
+    Spec.evalFuel { env with st := env.st.map eraseDynRef } fuel scope s j = Spec.evalFuel env fuel scope s j :=
+  evalFuel_map_of env eraseDynRef (fun rec scope s j n => specBody_dyn7 env hd rec scope s j n)
 
 theorem evalFuel_later7 (env : Spec.Env) (hd : env.draft = .d7) : ∀ fuel scope s j,
     Spec.evalFuel { env with st := env.st.map eraseLater } fuel scope s j = Spec.evalFuel env fuel scope s j := by
